@@ -340,7 +340,7 @@ def main(tier: str, seed: int) -> int:
             choices = ra.get("choices")
             if item[1] == "gen" and choices and batch_replay is None:
                 choices, ra, rb = minimise_pair(pool, a, b, item, choices, params,
-                                                60 if tier == "quick" else 300, ra, rb)
+                                                (150 if tier == "quick" else 500) if len(reported) < 2 else 30, ra, rb)
             viol = {"cls": cls, "sig": sig}
             f = next((f for f in known if F.known_match(f, viol)), None)
             if f is not None:
